@@ -187,7 +187,10 @@ def monitor_tail(chk, shapes):
                     stats['skipped_contract'] += 1
                     continue
             if st.status != 'done':
-                Ds['announced-states'].no_bad_status([st])
+                # charged to every obligation decided on this exploration: a check that keeps only some of them
+                # (C10: reports-exact, lost-events) must not lose an aborted or panicking path
+                for nm_ in Ds:
+                    Ds[nm_].no_bad_status([st])
                 continue
             stats['paths'] += 1
             F = decode_path(ex, st, napps)
